@@ -37,6 +37,14 @@ theorem links_eq_spec : ∀ kv ∈ Spec.links, Spec.assoc kv.1 dump.links = some
 theorem order_consistent : dump.order = "consistent" := by decide
 theorem eval_link : dump.evalLink = "ok" := by decide
 
+set_option maxRecDepth 1000000 in
+/-- hook facts: every §15 object has the class field, internal-method table and value type of the model -/
+theorem self_kinds_eq_model : ∀ o ∈ Owner.all, Spec.lookup dump.kinds o "@self" = some (Model.selfKind o) := by decide +kernel
+
+set_option maxRecDepth 1000000 in
+/-- arrays, String objects and arguments objects the language creates behave as ES5 15.4.5 / 15.5.5 / 10.6 say -/
+theorem behaviours_eq_model : ∀ kv ∈ Model.behaviours, Spec.assoc kv.1 dump.behaviours = some kv.2 := by decide +kernel
+
 /-! corollaries: the property for this configuration -/
 
 /-- every (owner, property) of ES5 §15 outside the deviation regions has exactly the specified shape -/
